@@ -57,6 +57,11 @@ COMMON = ('Static structural rules decided on the type-checked program (rustc bu
           'each rule is a necessary condition of the property that is visible in the shape of the code on every path, and holds for all schedules at once. '
           'The behaviour of executions as a whole is NOT decided. ')
 
+# Rule groups for dependent properties: a property that is *derived* from another (DESIGN §5) runs that property's necessary conditions too.
+G_EXCL = [(RP.tok_exec, None), (RP.pa_rules, {'PA-excl', 'PA-stuck', 'PA'}), (RP.tok_requeue, None), (RQ.qd_queue, None), (RP.tr_immediate, None)]
+G_ORDER = [(RO.c02_append, None), (RQ.qd_queue, None), (RP.tr_immediate, None), (RP.tr_sibling, None, ['sync']), (RP.tok_requeue, None),
+           (RP.pa_rules, {'PA-excl', 'PA'}), (RP.tok_exec, None)]
+
 prop('C01', COMMON +
      'The right to run a queue is modelled as a token. Decided: jobs execute only with the token held (interprocedural typestate over the extracted state writes, TOK-exec); '
      'no configuration with two holders is reachable in the protocol extracted from the code (counting abstraction, PA-excl); a suspended job goes back to the front before any release '
@@ -72,9 +77,9 @@ prop('C01', COMMON +
 prop('C02', COMMON +
      'Decided: every scheduling call appends its job under the queue lock before it returns, in its own body (ORD-C02-append); the job list is only appended at the back, taken from the front, '
      'and a suspended job is put back at the front (QD-queue, TOK-requeue); a closure runs ahead of the list only when the queue was claimed Idle and seen empty in the same critical section (TR-immediate, TR-sibling).',
-     ['append under the lock before the call returns (ORD-C02-append)', 'FIFO discipline (QD-queue)', 'immediate execution only when Idle and empty (TR-immediate, TR-sibling)', 'suspended job returns to the front (TOK-requeue)'],
+     ['append under the lock before the call returns (ORD-C02-append)', 'FIFO discipline (QD-queue)', 'immediate execution only when Idle and empty (TR-immediate, TR-sibling)', 'suspended job returns to the front (TOK-requeue)', 'a single runner per queue (PA-excl, TOK-exec): a second runner would start later operations early'],
      ['the real-time order of two calls on different threads (it is the linearisation order of the core mutex)', 'every runner path preserving order is derived from QD + TOK-requeue'],
-     [(RO.c02_append, None), (RQ.qd_queue, None), (RP.tr_immediate, None), (RP.tr_sibling, None, ['sync']), (RP.tok_requeue, None)])
+     G_ORDER)
 
 prop('C03', COMMON +
      'Decided: an acquired token is always released or handed on (TOK-leak, globally PA-stuck); every owner release to Idle is followed by reschedule_queue or made under the queue-empty test (TOK-resched); '
@@ -91,17 +96,18 @@ prop('C04', COMMON +
      'the blocked caller stays registered until it leaves and retries to claim the queue after each wake-up (QD-waiters, ORD-C04-steal); it does not return before its lifetime-erased job is gone (UA-wait) and returns its own slot\'s value (ORD-C04-result); '
      'no lock cycle and nothing foreign or blocking under an internal lock (LO, BL); caller-side execution holds the token (TOK-exec).',
      ['strategy chosen atomically; waits only when the queue is owned or parked (TR-defer)', 'blocked caller cannot miss its wake-up (CV1, CV2, QD-waiters)', 'caller runs the queue itself when woken and it is claimable (ORD-C04-steal)',
-      'own result, after completion (ORD-C04-result, UA-wait)', 'no lock-order cycle, no blocking/foreign code under an internal lock (LO, BL)', 'caller-side execution holds the token (TOK-exec)'],
+      'own result, after completion (ORD-C04-result, UA-wait)', 'no lock-order cycle, no blocking/foreign code under an internal lock (LO, BL)', 'caller-side execution holds the token (TOK-exec)', 'caller-side parking: wake latched while polling, consumed before parking, unpark + re-check loop (PARK-wake, ORD-C06-drain)'],
      ['termination of the operations ahead; OS fairness', '"from inside a job of a different Desync" is derived from BL (no internal lock is held while a job runs)'],
-     [(RP.tr_defer, None, ['sync']), (RL.cv, None), (RQ.qd_wake_blocked, None), (RO.c04_steal, None), (RO.c04_result, None), (RU.ua_wait, None), (RL.lo, None), (RL.bl, None), (RL.lock_classes, None), (RP.tok_exec, None), (RP.tok_resched, None)])
+     [(RP.tr_defer, None, ['sync']), (RL.cv, None), (RQ.qd_wake_blocked, None), (RO.c04_steal, None), (RO.c04_result, None), (RU.ua_wait, None), (RL.lo, None), (RL.bl, None), (RL.lock_classes, None), (RP.tok_exec, None), (RP.tok_resched, None),
+      (RP.park_wake, None, ['WakeThread', 'run_one_job_now']), (RO.c06_drain, None, ['run_one_job_now'])])
 
 prop('C05', COMMON +
      'Decided: Desync::drop performs a final sync on its own queue on every path and frees the value inside that job (ORD-C05-drop); freed nowhere else, not duplicable (UA-free); every other use of the pointer is a job '
      'of the same queue (UA-confine); the final job cannot overtake queued work (TR-immediate: direct run only from Idle-and-empty); pipes hold a Weak and upgrade before scheduling (ORD-C05-weak).',
      ['drop queues a final sync job that frees the value (ORD-C05-drop)', 'freed only there; Desync/DataRef not duplicable (UA-free)', 'pointer used only in jobs of the same queue (UA-confine)',
-      'final job ordered after queued work (TR-immediate, ORD-C02-append)', 'pipes cannot schedule on a dead object (ORD-C05-weak)'],
+      'final job ordered after queued work: all of C02\'s rules (ORD-C02-append, QD-queue, TR-immediate, TOK-requeue, PA-excl)', 'the final sync waits for its job (UA-wait)', 'pipes cannot schedule on a dead object (ORD-C05-weak)'],
      ['absence of use-after-free on every interleaving as such', '"blocks until" is derived from the C04 rules'],
-     [(RO.c05_drop, None), (RU.ua_free, None), (RU.ua_confine, None), (RP.tr_immediate, None), (RO.c02_append, None), (RO.c05_weak, None)])
+     [(RO.c05_drop, None), (RU.ua_free, None), (RU.ua_confine, None), (RO.c05_weak, None), (RU.ua_wait, None)] + G_ORDER)
 
 prop('C06', COMMON +
      'Decided: from every parked configuration reachable in the extracted protocol, wakers and claimers alone lead back to a running queue (PA-wake); each waker calls the resume action that matches the parked state it finds, '
@@ -125,7 +131,7 @@ prop('C08', COMMON +
      'SyncFuture drops the user future before the completion sender and has no Drop impl; the slot is reserved at call time (ORD-C02-append).',
      ['channel pairing, slot job order, SyncFuture state order, field drop order (ORD-C08)', 'slot reserved at call time (ORD-C02-append)', 'signal after completion, once (ORD-C07-signal)'],
      ['deadlock-freedom of nested awaits as executions', 'that a mid-operation drop happens "before any later operation begins" follows from drop order + slot job order but is a statement about executions'],
-     [(RO.c08, None), (RO.c02_append, None), (RO.c07_signal, None)])
+     [(RO.c08, None), (RO.c02_append, None), (RO.c07_signal, None)] + G_EXCL)
 
 prop('C09', COMMON +
      'Decided: a Busy outcome of try_sync has written nothing (every path to Err(Busy) leaves the token untouched: TOK-leak); try_sync never reaches a blocking primitive except the bounded join of finished threads (ORD-C09-noblock); '
@@ -146,7 +152,7 @@ prop('C11', COMMON +
      'end of stream ends it and releases the poll function; the context holds only a Weak target and no closure captures a strong reference (ORD-C05-weak); no guard across awaits, no foreign code under internal locks (AW, BL).',
      ['processing only inside a job of the target; one item at a time, in order (ORD-C11)', 'weak reference only; release on end/dead target (ORD-C05-weak, ORD-C11)', 'no guard across await; no user code under internal locks (AW, BL)'],
      ['arrival patterns and drop points as executions', 'every wake leads to one poll job is derived from the C03 rules + PipeWaker taking its context once'],
-     [(RO.c11, None), (RO.c05_weak, None), (RL.aw, None), (RL.bl, None)])
+     [(RO.c11, None), (RO.c05_weak, None), (RL.aw, None), (RL.bl, None)] + G_EXCL + G_ORDER)
 
 prop('C12', COMMON +
      'Decided: consumer and back-pressure handshakes register/notify atomically (LW1, LW2 on notify and backpressure_release_notify); the output buffer is appended by the producer only and taken from the front by the consumer only (QD-pending); '
@@ -160,23 +166,23 @@ prop('C13', COMMON +
      'QueueResumer has no Drop impl and resume consumes it. "Later work waits, then continues in order" is derived from the C01/C02/C06 rules for a job that stays Pending (TOK-requeue, QD-queue, PARK-wake).',
      ['suspend job shape (ORD-C13)', 'a Pending job keeps the queue and is resumed by its waker (TOK-requeue, QD-queue, PARK-wake)'],
      ['all dynamic content: this is the thinnest claim; order of held operations after resumption is derived, not separately decided'],
-     [(RO.c13, None), (RP.tok_requeue, None), (RQ.qd_queue, None), (RP.park_wake, None)])
+     [(RO.c13, None), (RP.park_wake, None)] + G_ORDER)
 
 prop('C14', COMMON +
      'Decided: the four lifetime-erasure obligations — a sync caller does not return before its lifetime-erased job has been run and dropped (UA-wait), the payload pointer is dereferenced only inside jobs of the object\'s own queue (UA-confine), '
      'the value is freed only in Desync::drop\'s final job and cannot be duplicated (UA-free, ORD-C05-drop), which cannot overtake queued work (TR-immediate); the bounds fencing the unsafe impls and every public signature are present (UA-bounds); '
      'every unsafe operation is of an audited kind (UA-sites). Thorough tier adds compile-fail witnesses with compiling twins (W).',
      ['sync waits for its erased job (UA-wait)', 'pointer confined to jobs of the own queue (UA-confine)', 'freed once, in the final job, ordered last (UA-free, ORD-C05-drop, TR-immediate)', 'Send/\'static bounds (UA-bounds, W)', 'unsafe sites enumerated (UA-sites)'],
-     ['memory safety of executions as such', 'soundness of `Desync: Sync` rests on C01 (stated, not re-proved here)'],
-     [(RU.ua_wait, None), (RU.ua_confine, None), (RU.ua_free, None), (RO.c05_drop, None), (RP.tr_immediate, None), (RU.ua_bounds, None), (RU.ua_sites, None)])
+     ['memory safety of executions as such', 'soundness of `Desync: Sync` rests on exclusion and on drop being ordered last: the C01/C02 rules are run as part of this check, their undecided clauses remain undecided here'],
+     [(RU.ua_wait, None), (RU.ua_confine, None), (RU.ua_free, None), (RO.c05_drop, None), (RU.ua_bounds, None), (RU.ua_sites, None)] + G_EXCL + G_ORDER)
 
 prop('C15', COMMON +
      'Decided: an ActiveQueue guard is live in some frame of every call path to every execution site, so unwinding marks the queue (TOK-guard); its Drop marks only while panicking (AQ-drop); nothing leaves Panicked (TR-dead); '
      'every scheduling entry point refuses a Panicked queue by panicking, sync_no_panic reports it, Desync::drop uses it while unwinding (ORD-C15-refuse); finished pool threads are reaped before a dormant one is looked for (ORD-C15-reap) and '
      'nothing on the pool-thread path catches the unwind (ORD-C15-unwind); no user code runs under a scheduler mutex, so a panic cannot poison one (BL).',
-     ['guard covers every execution site (TOK-guard, AQ-drop)', 'nothing leaves Panicked (TR-dead)', 'entry points refuse a panicked queue (ORD-C15-refuse)', 'dead threads reaped and replaced (ORD-C15-reap, ORD-C15-unwind)', 'no user code under scheduler locks (BL)'],
+     ['guard covers every execution site (TOK-guard, AQ-drop)', 'nothing leaves Panicked (TR-dead)', 'entry points refuse a panicked queue (ORD-C15-refuse)', 'dead threads reaped and replaced (ORD-C15-reap, ORD-C15-unwind)', 'no user code under scheduler locks (BL)', 'the guard takes the queue lock unconditionally (TRY: no try_lock on internal locks)'],
      ['"other objects remain fully usable" as executions'],
-     [(RG.tok_guard, None), (RG.aq_drop, None), (RP.tr_dead, None), (RG.c15_refuse, None), (RG.c15_reap, None), (RO.c15_unwind, None), (RL.bl, None)])
+     [(RG.tok_guard, None), (RG.aq_drop, None), (RP.tr_dead, None), (RG.c15_refuse, None), (RG.c15_reap, None), (RO.c15_unwind, None), (RL.bl, None), (RL.try_rule, None)])
 
 prop('C16', COMMON +
      'Decided: the producer registers notify_stream_closed only after re-reading `closed` in the same critical section, and PipeStream::drop sets `closed` and takes+wakes the slot in one critical section (LW1, LW2); '
